@@ -322,6 +322,11 @@ type explorer struct {
 }
 
 const maxOutcomeKeys = 4000
+
+// memory bounds of the work queue: a node whose children's prefixes add up to more than maxSplitInts is not
+// split; while the coordinator's queue holds more than maxQueueInts the items it hands out are not split further
+const maxSplitInts = 4000000
+const maxQueueInts = 60000000
 const maxHBPerItem = 200000
 
 func (e *explorer) record(rep *ExecReport, plen int) {
@@ -426,6 +431,17 @@ func (e *explorer) explore(prefix []int, split int) {
 		return
 	}
 	kids := e.children(rep, len(prefix))
+	if split > 0 {
+		// handing the children of a very long execution back to the coordinator would cost more memory than the
+		// parallelism is worth (every child carries its whole choice prefix): such a node is explored in place
+		total := 0
+		for _, k := range kids {
+			total += len(k.prefix)
+		}
+		if total > maxSplitInts {
+			split = 0
+		}
+	}
 	if split > 0 {
 		for _, k := range kids {
 			ns := split - 1
@@ -610,6 +626,7 @@ func (p *pool) runBound(sc *Scenario, b Bound, budget time.Duration) *BoundRepor
 	}
 	ch := make(chan done, len(p.workers))
 	inflight := 0
+	queueInts := 0
 	dead := map[int]bool{}
 	for len(queue) > 0 || inflight > 0 {
 		for len(queue) > 0 && len(idle) > 0 {
@@ -631,6 +648,10 @@ func (p *pool) runBound(sc *Scenario, b Bound, budget time.Duration) *BoundRepor
 			// largest subtrees first: shortest prefixes
 			it := queue[0]
 			queue = queue[1:]
+			queueInts -= len(it.Prefix)
+			if queueInts > maxQueueInts {
+				it.Split = 0
+			}
 			wi := idle[len(idle)-1]
 			idle = idle[:len(idle)-1]
 			inflight++
@@ -656,12 +677,21 @@ func (p *pool) runBound(sc *Scenario, b Bound, budget time.Duration) *BoundRepor
 		if d.err != nil {
 			dead[d.w] = true
 			p.workers[d.w].cmd.Process.Kill()
+			p.workers[d.w].cmd.Wait()
+			byWatchdog := p.workers[d.w].cmd.ProcessState != nil && p.workers[d.w].cmd.ProcessState.ExitCode() == 3
 			if d.it.Retries < 1 {
 				// (a worker stopped by its watchdog or by the system: its item goes to a fresh worker once)
 				d.it.Retries++
 				d.it.Deadline = time.Now().Add(budget) // (it may take as long again as the whole bound was given)
 				queue = append(queue, d.it)
+				queueInts += len(d.it.Prefix)
 				br.Restarts++
+			} else if !byWatchdog {
+				// the worker was not stopped by its own watchdog (killed by the system - out of memory? - or crashed
+				// outside an execution): that says nothing about the code under test
+				if br.engineErr == "" {
+					br.engineErr = fmt.Sprintf("a worker process died twice (%v) while exploring scenario %s at or below the choice prefix %v; it was not stopped by its watchdog", p.workers[d.w].cmd.ProcessState, d.it.Scenario, d.it.Prefix)
+				}
 			} else if br.viol["hang/execution-never-ends"] == nil {
 				// twice, at the same place, in fresh workers: not an accident of the engine. The explorations are
 				// deterministic, so this is an execution of the code under test that does not end and never reaches a
@@ -716,6 +746,9 @@ func (p *pool) runBound(sc *Scenario, b Bound, budget time.Duration) *BoundRepor
 			br.samples = append(br.samples, r.Samples...)
 		}
 		queue = append(queue, r.Children...)
+		for _, c := range r.Children {
+			queueInts += len(c.Prefix)
+		}
 	}
 	br.Outcomes = len(br.TopOut)
 	br.DistinctH = len(br.hbset)
